@@ -620,6 +620,29 @@ func runPlan(ctx *Ctx) {
 		}
 	}
 	planSizeWitnesses(ctx, s, reqT, respT, note)
+	// C05: messages whose version-dependent fields are populated WHATEVER the header's version (the encoder must
+	// drop them), at versions inside and outside 1.0-1.4 (negative components included). They are not
+	// well-formed at their own version, so only the encode/decode correspondence applies (no round-trip oracle).
+	oddVers := []kmip.ProtocolVersion{{ProtocolVersionMajor: 0, ProtocolVersionMinor: 0}, {ProtocolVersionMajor: 0, ProtocolVersionMinor: 9},
+		{ProtocolVersionMajor: 1, ProtocolVersionMinor: 0}, {ProtocolVersionMajor: 1, ProtocolVersionMinor: 1}, {ProtocolVersionMajor: 1, ProtocolVersionMinor: 2},
+		{ProtocolVersionMajor: 1, ProtocolVersionMinor: 3}, {ProtocolVersionMajor: 1, ProtocolVersionMinor: 4}, {ProtocolVersionMajor: 1, ProtocolVersionMinor: 5},
+		{ProtocolVersionMajor: 1, ProtocolVersionMinor: 10}, {ProtocolVersionMajor: 2, ProtocolVersionMinor: 0}, {ProtocolVersionMajor: 2, ProtocolVersionMinor: 1},
+		{ProtocolVersionMajor: 3, ProtocolVersionMinor: 3}, {ProtocolVersionMajor: -1, ProtocolVersionMinor: 3}, {ProtocolVersionMajor: 1, ProtocolVersionMinor: -1},
+		{ProtocolVersionMajor: -2147483648, ProtocolVersionMinor: 2147483647}, {ProtocolVersionMajor: 2147483647, ProtocolVersionMinor: -2147483648}}
+	nUngated := ctx.N(160, 4000)
+	for i := 0; i < nUngated; i++ {
+		tg := reqT
+		if i%2 == 1 {
+			tg = respT
+		}
+		fv := oddVers[(i/2)%len(oddVers)]
+		seq := i / 2
+		p := &popCfg{r: r, s: s, fill: 1 + i%2, respectGating: false, forceVer: &fv, opSeq: &seq}
+		x := reflect.New(tg.ty.Elem())
+		p.populate(x.Elem())
+		planCase(ctx, s, tg, x, false)
+		ctx.Res.Count("plan.msg.ungated")
+	}
 	// every registered dynamic type standalone (payloads, objects, attribute values)
 	per := ctx.N(6, 120)
 	for id, ty := range dynTypes {
